@@ -11,8 +11,8 @@ PROP = {
             "entry block inside a loop in ~1/12; 3 executions each from random initial stack pointers (incl. wrapping ones); "
             "non-trivial = contains a push/pop and >= 3 locations; distinct by function text",
     "trusted_base": [KERNEL, HARNESS_TB],
-    "assumptions": [],
+    "assumptions": ["cfg_inv (C15) and sp_wf (1 <= w <= 64, one width for the stack pointer's name, well-sorted sources assigned to it) for the theorems", "reported integers are read modulo 2^w (DESIGN.md)", "executions are those of Exec/Sem.v"],
     "partial": [],
-    "level_text": "",
-    "level_note": "",
+    "level_text": "Unbounded Coq theorems about a Gallina transcription of stack_pointer_offsets.rs (as repaired) run through the C09 engine model, parameterised by the stack-pointer scalar: for every function whose entry block has no incoming edge and every stack-pointer width 1..64, the analysis completes within the C09 step bound, every reported number k satisfies sp_after = (sp_entry + k) mod 2^w on every execution of the reference IL semantics, and loads into sp / non-affine sources / disagreeing predecessors never yield a number. Plus an in-kernel differential tie of the model to the Rust code for the stack pointers of all seven architectures and an execution-based oracle on generated functions.",
+    "level_note": "Trusted: Coq kernel + vm_compute; the harness; Exec/Sem.v as the meaning of execution; Architecture::stack_pointer() is read from the Rust code by the harness (not modelled); inputs are IL functions built through the il API, not lifted bytes; the model is hand-written and tied differentially.",
 }
